@@ -156,7 +156,7 @@ type Exec struct {
 	tick    int
 
 	reached   map[string]bool
-	observes  []string
+	observes  []obsRec
 	actions   []string
 	asserts   int
 	assumes   map[string]bool
@@ -175,6 +175,7 @@ type Exec struct {
 	tracked   map[string]Value
 	violation *Violation
 	curSite   *ssa.Call
+	sample    *PathSample
 	posHits   map[string]int
 	unknowns  int
 	cfg       map[string]int64
@@ -189,6 +190,36 @@ type Violation struct {
 	Actions   []string
 	Observes  []string
 	Threads   []string // thread states at the point of the violation
+}
+
+// obsRec is one verifObserve call: concrete parts are strings, symbolic parts terms
+// that are rendered under a model when the path is sampled or reported.
+type obsRec struct {
+	label string
+	vals  []interface{}
+}
+
+func (ex *Exec) renderObserves(model map[string]uint64) []string {
+	var out []string
+	memo := map[int]uint64{}
+	for _, o := range ex.observes {
+		s := o.label
+		for _, v := range o.vals {
+			switch x := v.(type) {
+			case string:
+				s += " " + x
+			case *Term:
+				val := eval(x, model, memo)
+				if x.w == 0 {
+					s += fmt.Sprintf(" %v", val == 1)
+				} else {
+					s += fmt.Sprintf(" %d", sext(val, x.w))
+				}
+			}
+		}
+		out = append(out, s)
+	}
+	return out
 }
 
 type NondetVal struct {
